@@ -89,7 +89,23 @@ def searchIdx (self : Loc) (types : List Discovery.QName)
     ⟨[i], t, sc.map fun l => ⟨l.map (·.2), none⟩, [], 1, i⟩
   (LocationSearch.searchInLocation chk ⟨[], [], [], [], false⟩ self types remote).map fun r => r.map (·.inst)
 
-def stepLine (st : Unit) (line : String) : Unit × String :=
+/-- ops on the location state of one provider: `lsreset` | `lsupdate <loc>` (container level) | `lstx <loc>` (inside an
+    MDIB transaction) -> `ok` | `err ValueError`;  `lspub` -> `ok <scope>` | `err ValueError` -/
+def stepState (st : LocState) (ws : List String) : Option (LocState × String) :=
+  match ws with
+  | ["lsreset"] => some (LocState.fresh, "ok")
+  | "lsupdate" :: rest => (parseLoc rest).map fun l =>
+      let r := updateFromLocation st l
+      (r.1, match r.2 with | none => "ok" | some e => errName e)
+  | "lstx" :: rest => (parseLoc rest).map fun l =>
+      (txUpdate st l, match (updateFromLocation st l).2 with | none => "ok" | some e => errName e)
+  | ["lspub"] => some (st, match publishedOfState st with | .ok s => "ok " ++ toArg s | .error e => errName e)
+  | _ => none
+
+def stepLine (st : LocState) (line : String) : LocState × String :=
+  match stepState st (Io.words line) with
+  | some r => r
+  | none =>
   (st, match Io.words line with
   | "scope" :: rest => match parseLoc rest with
     | some l => "ok " ++ toArg (scopeString l)
@@ -147,4 +163,4 @@ def stepLine (st : Unit) (line : String) : Unit × String :=
     | none => "bad-op"
   | _ => "bad-op")
 
-def main : IO Unit := Io.lineLoop stepLine ()
+def main : IO Unit := Io.lineLoop stepLine LocState.fresh
